@@ -208,6 +208,14 @@ func runCOMMIT(c *Ctx) {
 				if inRegion[ir.Outermost(fn)] {
 					exit = "directly"
 					if g := calleeOrClosure(ci.Common()); g != nil && g.Blocks != nil && isOwn(P, g) && !inRegion[ir.Outermost(g)] {
+						// a one-call wrapper (`loadRoot(ctx)` = `m.load(ctx, m.root)`) is named by what it wraps
+						for d := 0; d < 3; d++ {
+							w := wrappedCallee(P, g)
+							if w == nil {
+								break
+							}
+							g = w
+						}
 						exit = ir.FuncName(g)
 					}
 				}
@@ -583,4 +591,52 @@ func storesParamIntoKey(i ssa.Instruction, key *ssa.Parameter, depth int, keySli
 		}
 	}
 	return false
+}
+
+// wrappedCallee: g does nothing but call one function of the repository and return its results.
+func wrappedCallee(P *ir.Program, g *ssa.Function) *ssa.Function {
+	if g == nil || len(g.Blocks) != 1 {
+		return nil
+	}
+	var only *ssa.Call
+	for _, ins := range g.Blocks[0].Instrs {
+		switch x := ins.(type) {
+		case *ssa.Call:
+			if _, isB := x.Call.Value.(*ssa.Builtin); isB {
+				continue
+			}
+			if only != nil {
+				return nil
+			}
+			only = x
+		case *ssa.Store, *ssa.Go, *ssa.Defer, *ssa.Send, *ssa.MapUpdate, *ssa.Panic:
+			return nil
+		}
+	}
+	if only == nil {
+		return nil
+	}
+	w := ir.Callee(only.Call)
+	if w == nil || w.Blocks == nil || !isOwn(P, w) || w == g {
+		return nil
+	}
+	ret, ok := g.Blocks[0].Instrs[len(g.Blocks[0].Instrs)-1].(*ssa.Return)
+	if !ok {
+		return nil
+	}
+	for _, r := range ret.Results {
+		switch y := r.(type) {
+		case *ssa.Call:
+			if y != only {
+				return nil
+			}
+		case *ssa.Extract:
+			if y.Tuple != ssa.Value(only) {
+				return nil
+			}
+		default:
+			return nil
+		}
+	}
+	return w
 }
